@@ -19,15 +19,25 @@ CRATE = os.path.join(ROOT, "replay")
 
 
 def build_driver():
-    if not os.path.exists(os.path.join(CRATE, "Cargo.toml")):
+    tin = os.path.join(CRATE, "Cargo.toml.in")
+    if not os.path.exists(tin):
         return None, "no replay crate"
-    env = dict(os.environ, CARGO_NET_OFFLINE="true", CARGO_TARGET_DIR=os.path.join(ROOT, "target", "replay"))
-    lock = os.path.join(gen.REPO, "Cargo.lock")
+    repo = os.path.abspath(gen.REPO)
+    toml = open(tin).read().replace("@REPO@", repo)
+    cur = os.path.join(CRATE, "Cargo.toml")
+    if not os.path.exists(cur) or open(cur).read() != toml:
+        open(cur, "w").write(toml)
+    lock = os.path.join(repo, "Cargo.lock")
+    if os.path.exists(lock) and not os.path.exists(os.path.join(CRATE, "Cargo.lock")):
+        import shutil
+        shutil.copy(lock, os.path.join(CRATE, "Cargo.lock"))
+    tdir = os.path.join(ROOT, "target", "replay" if repo == "/repo" else "replay_scratch")
+    env = dict(os.environ, CARGO_NET_OFFLINE="true", CARGO_TARGET_DIR=tdir)
     p = subprocess.run(["cargo", "build", "--release", "--offline", "-q"], cwd=CRATE, env=env,
                        capture_output=True, text=True)
     if p.returncode != 0:
         return None, "replay crate does not build against the working tree: " + p.stderr[-600:]
-    return os.path.join(ROOT, "target", "replay", "release", "replay"), None
+    return os.path.join(tdir, "release", "replay"), None
 
 
 def search(unit, tag, tier):
